@@ -3,7 +3,7 @@
    ACK flag on empty frames, and SUPPRESSES an empty frame that would repeat the last transmitted
    (ackNo, frameNo) pair — unless it is a retransmission, a FIN or a RESP, or ten such frames in a row were
    already suppressed (r.unsend == 10).  Definitions only. *)
-From Hop Require Import Base.
+From Hop Require Import Base TubesFloat Send.
 Open Scope N_scope.
 
 Record so_state := {
@@ -50,3 +50,7 @@ Fixpoint so_run (st : so_state) (cs : list so_call) : so_state * list (option so
 (* a frame of the byte stream (data or FIN) or a retransmission — everything the sender model of Model/Send.v
    emits — as opposed to a pure acknowledgement *)
 Definition so_stream_frame (c : so_call) : bool := (0 <? sc_dlen c) || sc_fin c || sc_retx c.
+
+(* ---- recvAck's last two statements on the congestion window: `if cwndSize < 10 { cwndSize = 10 }` and
+   `windowSize = uint16(cwndSize)` (tubes/sender.go; the same expressions as inside Model/Send.v recv_ack) *)
+Definition window_after_ack (c : float) : N := f_to_u16 (if fl_ltb c f10 then f10 else c).
